@@ -50,7 +50,30 @@ CTC_DATA = {
     "deform": np.array([0.02, 0.05, 0.08, 0.12, 0.14]),
 }
 
+def image_data():
+    rs = np.random.RandomState(4)
+    n = 4
+    img = rs.randint(0, 255, (n, 10, 12)).astype(np.uint8)
+    bg = rs.randint(0, 255, (n, 10, 12)).astype(np.uint8)
+    mask = np.zeros((n, 10, 12), bool)
+    for i in range(n):
+        mask[i, 2:6 + i % 2, 3:8 + i % 3] = True
+        mask[i, 6, 4] = True
+    return {"image": img, "image_bg": bg, "mask": mask,
+            "pos_x": np.array([20.0, 21.0, 22.5, 19.0]),
+            "pos_y": np.array([5.0, 5.5, 6.0, 5.2]),
+            "deform": np.array([0.02, 0.05, 0.08, 0.12])}
+
+
+ML_DATA = {"deform": np.array([0.02, 0.05, 0.08, 0.12]),
+           "ml_score_abc": np.array([0.1, 0.9, 0.5, 0.0]),
+           "ml_score_xyz": np.array([0.8, 0.2, 0.5, 0.0])}
+ML_NEW = {0: np.array([0.95, 0.1, 0.6, 0.3]), 1: np.array([0.0, 0.95, 0.1, 0.2])}
+BGOFF = {0: np.array([1.0, 2.0, 3.0, 4.0]), 1: np.array([10.0, 0.0, -5.0, 2.5])}
+
 SCENARIOS = {
+    "image": {},
+    "ml": {},
     # documented base scenarios for emodulus
     "A": {"calculation": {"emodulus lut": "VF-LUT-A",
                           "emodulus medium": "CellCarrier",
@@ -115,6 +138,14 @@ class AncDriver(explore.Driver):
         if family == "emod":
             self.watch = ["emodulus", PLUG, "time", "area_um"]
             self.edits = EMOD_EDITS
+        elif family == "image":
+            self.watch = ["volume", "bright_avg", "bright_bc_avg",
+                          "bright_perc_10", "inert_ratio_cvx",
+                          "inert_ratio_prnc", "tilt"]
+            self.edits = [("imaging", "pixel size", [0.5], 0)]
+        elif family == "ml":
+            self.watch = ["ml_class"]
+            self.edits = []
         else:
             self.watch = ["fl1_max_ctc", "fl2_max_ctc", "fl3_max_ctc"]
             self.edits = CTC_EDITS
@@ -125,6 +156,10 @@ class AncDriver(explore.Driver):
                 "nfl": self.nfl, "child": self.child}
 
     def data(self):
+        if self.family == "image":
+            return image_data()
+        if self.family == "ml":
+            return {k: v.copy() for k, v in ML_DATA.items()}
         if self.family == "emod":
             d = {k: v.copy() for k, v in EMOD_DATA.items()}
             if not self.with_temp:
@@ -183,6 +218,12 @@ class AncDriver(explore.Driver):
             out.append((["avail", f], 1))
         out.append((["tmp", 0], 1))
         out.append((["tmp", 1], 1))
+        if self.family == "image":
+            for v in (0, 1):
+                out.append((["shadow", "bg_off", v], 0))
+        if self.family == "ml":
+            for v in (0, 1):
+                out.append((["shadow", "ml_score_zzz", v], 0))
         if self.family == "emod":
             # a temporary feature may shadow a feature other computed
             # features depend on
@@ -223,8 +264,12 @@ class AncDriver(explore.Driver):
             elif kind == "shadow":
                 import dclab
                 _, feat, v = op
-                base = EMOD_DATA[feat]
-                data = base * (1.1 + 0.2 * v)
+                if feat == "bg_off":
+                    data = BGOFF[v]
+                elif feat.startswith("ml_score"):
+                    data = ML_NEW[v]
+                else:
+                    data = EMOD_DATA[feat] * (1.1 + 0.2 * v)
                 st.shadow[feat] = data
                 dclab.set_temporary_feature(ds, feat, data)
                 st.last_edit = f"shadow {feat}"
@@ -363,7 +408,13 @@ class AncDriver(explore.Driver):
                                                      "setup")
                            for k, v in dict(ds.config[s]).items()))
         try:
-            anc = tuple(sorted((k, v[0], np.asarray(v[1]).tobytes())
+            def dig(x):
+                if isinstance(x, (list, tuple)) or hasattr(x, "contours"):
+                    return tuple(np.asarray(c).tobytes() for c in x)
+                if hasattr(x, "masks"):      # lazy contour list
+                    return ("lazy", tuple(x.indices))
+                return np.asarray(x).tobytes()
+            anc = tuple(sorted((k, v[0], dig(v[1]))
                                for k, v in ds._ancillaries.items()))
             ut = tuple(sorted((k, np.asarray(v).tobytes())
                               for k, v in ds._usertemp.items()))
@@ -432,6 +483,8 @@ def run(ctx):
                       area="computed", child=True))
     plans.append(dict(family="emod", scenario="BC", with_temp=False,
                       area="stored"))
+    plans.append(dict(family="image", scenario="image"))
+    plans.append(dict(family="ml", scenario="ml"))
     plans.append(dict(family="ctc", scenario="ctc2", nfl=2))
     plans.append(dict(family="ctc", scenario="ctc2x", nfl=2))
     plans.append(dict(family="ctc", scenario="ctc3", nfl=3))
